@@ -89,6 +89,9 @@ impl<T: RealNumber + ScalarOperand> BaseVector<T> for ArrayBase<OwnedRepr<T>, Ix
     }
 
     fn dot(&self, other: &Self) -> T {
+        if self.len() != other.len() {
+            panic!("A and B should have the same size");
+        }
         self.dot(other)
     }
 
@@ -143,25 +146,40 @@ impl<T: RealNumber + ScalarOperand> BaseVector<T> for ArrayBase<OwnedRepr<T>, Ix
     }
 
     fn approximate_eq(&self, other: &Self, error: T) -> bool {
+        if self.len() != other.len() {
+            return false;
+        }
         (self - other).iter().all(|v| v.abs() <= error)
     }
 
     fn add_mut(&mut self, other: &Self) -> &Self {
+        if self.len() != other.len() {
+            panic!("A and B should have the same shape");
+        }
         *self += other;
         self
     }
 
     fn sub_mut(&mut self, other: &Self) -> &Self {
+        if self.len() != other.len() {
+            panic!("A and B should have the same shape");
+        }
         *self -= other;
         self
     }
 
     fn mul_mut(&mut self, other: &Self) -> &Self {
+        if self.len() != other.len() {
+            panic!("A and B should have the same shape");
+        }
         *self *= other;
         self
     }
 
     fn div_mut(&mut self, other: &Self) -> &Self {
+        if self.len() != other.len() {
+            panic!("A and B should have the same shape");
+        }
         *self /= other;
         self
     }
@@ -178,6 +196,13 @@ impl<T: RealNumber + ScalarOperand> BaseVector<T> for ArrayBase<OwnedRepr<T>, Ix
     }
 
     fn copy_from(&mut self, other: &Self) {
+        if self.len() != other.len() {
+            panic!(
+                "Can't copy vector of length {} into a vector of length {}.",
+                self.len(),
+                other.len()
+            );
+        }
         self.assign(other);
     }
 }
@@ -193,8 +218,8 @@ impl<T: RealNumber + ScalarOperand + AddAssign + SubAssign + MulAssign + DivAssi
     }
 
     fn to_row_vector(self) -> Self::RowVector {
-        let vec_size = self.nrows() * self.ncols();
-        self.into_shape(vec_size).unwrap()
+        // logical (row-major) order, whatever the memory layout of `self` is
+        Array::from_iter(self.iter().copied())
     }
 
     fn get(&self, row: usize, col: usize) -> T {
@@ -262,7 +287,17 @@ impl<T: RealNumber + ScalarOperand + AddAssign + SubAssign + MulAssign + DivAssi
     }
 
     fn dot(&self, other: &Self) -> T {
-        self.dot(&other.view().reversed_axes())[[0, 0]]
+        if (self.nrows() != 1 && self.ncols() != 1) || (other.nrows() != 1 && other.ncols() != 1) {
+            panic!("A and B should both be either a row or a column vector.");
+        }
+        if self.len() != other.len() {
+            panic!("A and B should have the same size");
+        }
+        let mut result = T::zero();
+        for (a, b) in self.iter().zip(other.iter()) {
+            result += *a * *b;
+        }
+        result
     }
 
     fn slice(&self, rows: Range<usize>, cols: Range<usize>) -> Self {
@@ -270,25 +305,40 @@ impl<T: RealNumber + ScalarOperand + AddAssign + SubAssign + MulAssign + DivAssi
     }
 
     fn approximate_eq(&self, other: &Self, error: T) -> bool {
+        if self.shape() != other.shape() {
+            return false;
+        }
         (self - other).iter().all(|v| v.abs() <= error)
     }
 
     fn add_mut(&mut self, other: &Self) -> &Self {
+        if self.shape() != other.shape() {
+            panic!("A and B should have the same shape");
+        }
         *self += other;
         self
     }
 
     fn sub_mut(&mut self, other: &Self) -> &Self {
+        if self.shape() != other.shape() {
+            panic!("A and B should have the same shape");
+        }
         *self -= other;
         self
     }
 
     fn mul_mut(&mut self, other: &Self) -> &Self {
+        if self.shape() != other.shape() {
+            panic!("A and B should have the same shape");
+        }
         *self *= other;
         self
     }
 
     fn div_mut(&mut self, other: &Self) -> &Self {
+        if self.shape() != other.shape() {
+            panic!("A and B should have the same shape");
+        }
         *self /= other;
         self
     }
@@ -381,10 +431,20 @@ impl<T: RealNumber + ScalarOperand + AddAssign + SubAssign + MulAssign + DivAssi
     }
 
     fn reshape(&self, nrows: usize, ncols: usize) -> Self {
-        self.clone().into_shape((nrows, ncols)).unwrap()
+        // logical (row-major) order, whatever the memory layout of `self` is
+        Array::from_shape_vec((nrows, ncols), self.iter().copied().collect()).unwrap()
     }
 
     fn copy_from(&mut self, other: &Self) {
+        if self.shape() != other.shape() {
+            panic!(
+                "Can't copy {}x{} matrix into {}x{}.",
+                self.nrows(),
+                self.ncols(),
+                other.nrows(),
+                other.ncols()
+            );
+        }
         self.assign(other);
     }
 
@@ -408,6 +468,9 @@ impl<T: RealNumber + ScalarOperand + AddAssign + SubAssign + MulAssign + DivAssi
     }
 
     fn max_diff(&self, other: &Self) -> T {
+        if self.shape() != other.shape() {
+            panic!("A and B should have the same shape");
+        }
         let mut max_diff = T::zero();
         for r in 0..self.nrows() {
             for c in 0..self.ncols() {
@@ -470,7 +533,31 @@ impl<T: RealNumber + ScalarOperand + AddAssign + SubAssign + MulAssign + DivAssi
     }
 
     fn cov(&self) -> Self {
-        panic!("Not implemented");
+        let (m, n) = BaseMatrix::shape(self);
+
+        let mu = BaseMatrix::column_mean(self);
+
+        let mut cov: Self = BaseMatrix::zeros(n, n);
+
+        for k in 0..m {
+            for i in 0..n {
+                for j in 0..=i {
+                    let d = (self[(k, i)] - mu[i]) * (self[(k, j)] - mu[j]);
+                    cov[(i, j)] += d;
+                }
+            }
+        }
+
+        let m_t = T::from(m - 1).unwrap();
+
+        for i in 0..n {
+            for j in 0..=i {
+                cov[(i, j)] /= m_t;
+                cov[(j, i)] = cov[(i, j)];
+            }
+        }
+
+        cov
     }
 }
 
